@@ -133,7 +133,7 @@ def do_structure(job, tmp):
 
 def conflicting_interactions(structure3d):
     """what an external annotator may report: residues cWW-paired with two partners of the same rank (G with two C, A with two U, G with two U)"""
-    from rnapolis.common import BaseInteractions, BasePair, LeontisWesthof, Residue, Stacking, StackingTopology
+    from rnapolis.common import BaseInteractions, BasePair, LeontisWesthof, Residue, Saenger, Stacking, StackingTopology
     nts = [r for r in structure3d.residues if r.is_nucleotide]
     by = {}
     for r in nts:
@@ -146,8 +146,11 @@ def conflicting_interactions(structure3d):
         xs, ys = by.get(a, []), by.get(b, [])
         for i in range(min(len(xs), len(ys) // 2, 4)):
             x, y1, y2 = xs[i], ys[-1 - 2 * i], ys[-2 - 2 * i]
+            # every second tie carries a Saenger class (as FR3D / DSSR-derived lists do): the scoring key has one branch for
+            # pairs with a class and one for pairs without
+            sa = {"C": Saenger.XIX, "U": Saenger.XX if a == "A" else Saenger.XXVIII, "T": Saenger.XX}[b] if i % 2 == 1 else None
             for y in (y1, y2):
-                pairs.append(BasePair(res(x), res(y), LeontisWesthof.cWW, None))
+                pairs.append(BasePair(res(x), res(y), LeontisWesthof.cWW, sa))
     # ties that only the FULL residue identity can break: one residue claimed by two equal-rank partners that carry the same
     # residue number (and name) in different chains
     comp = {"G": "C", "C": "G", "A": "UT", "U": "A", "T": "A"}
